@@ -150,10 +150,18 @@ fn check_single(m: &MExt, tail: &[u8], obs: &mut Obs) -> R {
 fn single(t: &mut Tape, obs: &mut Obs) -> R {
     let budget = if t.chance(30) { 60000 } else { 400 };
     let m = gen_ext(t, budget);
-    let tail = match t.weighted(&[2, 3, 3]) {
+    let tail = match t.weighted(&[40, 60, 60, 3]) {
         0 => vec![],
         1 => t.small_blob(30),
-        _ => gen_ext(t, 100).to_bytes(),
+        2 => gen_ext(t, 100).to_bytes(),
+        _ => {
+            // 64 KiB and more behind the extension (the parsers are also called on buffers that hold much more than one block),
+            // lengths on both sides of the multiples of 2^16
+            let k = t.pick(&[65536usize, 65536, 131072, 1 << 20]);
+            let n = k - t.below(700).min(k - 1) + t.below(8);
+            let unit = [0x40u8, 0x01, 0, 2, 0xaa, 0xbb];
+            (0..n).map(|i| unit[i % 6]).collect()
+        }
     };
     let label = m.name();
     obs.sample_class(&label, || json!({"extension": trunc(&format!("{:?}", m)), "wire": hex_short(&m.to_bytes()), "trailing": tail.len()}));
@@ -161,7 +169,16 @@ fn single(t: &mut Tape, obs: &mut Obs) -> R {
 }
 
 fn lists(t: &mut Tape, obs: &mut Obs) -> R {
-    let l = if t.chance(12) {
+    let l: Vec<MExt> = if t.chance(4) {
+        // blocks beyond 64 KiB (the list parsers take any slice): a few large extensions, or thousands of small ones
+        if t.bool() {
+            let n = 2 + t.below(4);
+            (0..n).map(|k| MExt::Unknown(0x4100 + k as u16, vec![k as u8; t.pick(&[0x9000usize, 0x7fff, 0x8000, 0xffff, 40000])])).collect()
+        } else {
+            let n = t.pick(&[3000usize, 8000, 20000]);
+            (0..n).map(|k| MExt::Unknown(0x4000 + (k % 200) as u16, vec![k as u8; 30 + k % 7])).collect()
+        }
+    } else if t.chance(12) {
         // long blocks of minimal extensions: 255 / 256 / 257 ... up to what a 64 KiB block can hold
         let n = t.pick(&[255usize, 256, 257, 258, 300, 1000, 4000, 13000]);
         (0..n).map(|k| match t.below(4) {
